@@ -2,11 +2,13 @@
    over abstract documents directed, per field, by the format-specific tag if
    the field has one and else by its dials tag; durations may be written as
    strings of the duration grammar or as integer nanoseconds in every format;
+   a timestamp is read from the format's own way of writing one (TOML: its
+   datetime token; the others: a string) by time.Parse(RFC3339);
    an absent key leaves the field as it is. *)
 From Coq Require Import String.
 From Coq Require Import List NArith ZArith Bool.
 From Dials Require Import Base.Outcome Base.Runes Reflect.Ty Stack.Overlay Text.ParseText
-  Sources.Flatten Sources.Decoders.
+  Sources.Flatten Sources.TimeText Sources.Decoders.
 Import ListNotations.
 Open Scope list_scope.
 Open Scope N_scope.
@@ -19,9 +21,9 @@ Definition spec_key (f : format) (n : str) (tags : list (str * str)) : str :=
   | k => k
   end.
 
-Definition spec_ty (f : format) : doc -> ty -> outcome val := keyed_decode true (spec_key f).
+Definition spec_ty (f : format) : doc -> ty -> outcome val := keyed_decode (lib_native_time f) true (spec_key f).
 Definition spec_fields (f : format) : list (str * doc) -> fields -> outcome (list val) :=
-  keyed_fields true (spec_key f).
+  keyed_fields (lib_native_time f) true (spec_key f).
 
 Definition spec_decode (f : format) (d : doc) (pfs : fields) : outcome (list val) :=
   match d with DMap kvs => spec_fields f kvs pfs | _ => Err 43 end.
@@ -97,6 +99,32 @@ with no_fmt_fields (fs : fields) {struct fs} : bool :=
   match fs with
   | FNil => true
   | FCons _ tags _ t r => no_fmt tags && no_fmt_ty t && no_fmt_fields r
+  end.
+
+(* no time.Time leaf anywhere *)
+Fixpoint time_free_ty (t : ty) {struct t} : bool :=
+  match t with
+  | TTextU id true => negb (str_eqb id time_name)
+  | TPtr t' => time_free_ty t'
+  | TSlice e _ => time_free_ty e
+  | TArray _ e => time_free_ty e
+  | TMap _ v _ => time_free_ty v
+  | TStruct fs _ => time_free fs
+  | _ => true
+  end
+with time_free (fs : fields) {struct fs} : bool :=
+  match fs with
+  | FNil => true
+  | FCons _ _ _ t r => time_free_ty t && time_free r
+  end.
+
+(* the document writes its timestamps as timestamps: no string in it is one *)
+Fixpoint no_time_str (d : doc) : bool :=
+  match d with
+  | DStr s => match rfc3339 s with None => true | Some _ => false end
+  | DList l => forallb no_time_str l
+  | DMap kvs => forallb (fun kv => no_time_str (snd kv)) kvs
+  | _ => true
   end.
 
 (* list view of a field list *)
